@@ -82,7 +82,8 @@ class BasePolicy:
     def clone_for(self, callee, seeds):
         return None
 
-    def summarise_call(self, expr, state, flow):
+    def summarise_call(self, expr, state, flow, index=None):
+        """tags of the value a package helper returns (``index``: of the i-th element of a returned tuple)."""
         if self.prog is None or self.fn is None or self._depth >= 3:
             return EMPTY
         from .model import FunctionInfo, bind_args
@@ -101,7 +102,19 @@ class BasePolicy:
         acc = None
         for n in ast.walk(callee.node):
             if isinstance(n, ast.Return) and n.value is not None and self.prog.function_of(n) is callee:
-                t = sub.tags(n.value)
+                rv = n.value
+                if index is not None:
+                    if isinstance(rv, ast.Name):
+                        # ``res = (a, b); return res`` is not followed: no claim
+                        rv = None
+                    elif isinstance(rv, ast.Tuple) and index < len(rv.elts):
+                        rv = rv.elts[index]
+                    else:
+                        rv = None
+                    if rv is None:
+                        acc = EMPTY if not self.may_union else acc
+                        continue
+                t = sub.tags(rv)
                 if t is None:
                     continue
                 acc = t if acc is None else ((acc | t) if self.may_union else (acc & t))
